@@ -226,3 +226,20 @@ def e2eDirectionAsModel (o : Ordering) (dirs : List Bool) (keptA : List Nat) : B
   else true
 
 end Election
+
+/-! ### session death and reconnection (round 4) -/
+
+namespace Election
+
+/-- the `ActorTerminated` / `ActorFailed` arm of `NodeServer::handle_supervisor_evt` for a session:
+its entry leaves `node_sessions`, `connection_ids` and `authenticated_sessions` -/
+def NS.close (st : NS) (id : Nat) : NS := { st with sessions := st.sessions.filter (·.id != id) }
+
+/-- `ConnectionOpened{,External}`: a new, nameless, unauthenticated entry -/
+def NS.opened (st : NS) (id : Nat) (isServer : Bool) : NS :=
+  { st with sessions := st.sessions ++ [⟨id, isServer, none, none, false⟩] }
+
+/-- what `GetSessions` lists -/
+def NS.listed (st : NS) : List Nat := (st.sessions.filter (·.auth)).map (·.id)
+
+end Election
